@@ -10,6 +10,7 @@ import (
 	"log"
 	"os"
 	"path/filepath"
+	"runtime/debug"
 	"strconv"
 	"time"
 
@@ -89,7 +90,16 @@ func main() {
 		fmt.Fprintf(out, "unknown or sub-process-only check %q\n", id)
 		os.Exit(2)
 	}
-	code := f(ctx)
+	code := 2
+	func() {
+		defer func() {
+			if r := recover(); r != nil {
+				fmt.Fprintf(out, "TOOL-ERROR: check %s crashed: %v\n%s\n", id, r, debug.Stack())
+				code = 2
+			}
+		}()
+		code = f(ctx)
+	}()
 	if ctx.Work != *work {
 		os.RemoveAll(ctx.Work)
 	}
